@@ -1158,6 +1158,8 @@ func (c *FnCtx) mapCard(st *State, mt *types.Map, ref string) string {
 
 func (c *FnCtx) mapValue(st *State, mt *types.Map, ref, key string) Val {
 	mv, _, _ := mapNames(mt)
+	c.factBase, c.factAlloc = ref, st.alloc
+	defer func() { c.factBase = "" }()
 	return c.sliceFacts(buildVal(mt.Elem(), func(lf leaf) string {
 		a := c.heapGet(st, mv+lf.path, arr2Sort(lf.sort))
 		term := "(select (select " + a + " " + ref + ") " + key + ")"
